@@ -177,7 +177,9 @@ def main():
     if creator_defs:
         env["VERIF_C12_CREATOR_DEFS"] = creator_defs
     tests = "TestGenEnvs|TestMutate" + ("|TestBlackbox" if binp else "")
-    rc, out, od = vp.go_harness(PKG, run=tests, env_extra=env, timeout=2400)
+    # hard cap: no seed may stall the run (the harness also has a per-case timeout and its own time budget)
+    env["VERIF_BUDGET_S"] = 1500 if R.thorough else 110
+    rc, out, od = vp.go_harness(PKG, run=tests, env_extra=env, timeout=2400 if R.thorough else 170)
     if rc != 0:
         R.broke("correspondence:harness clusterhash failed to run", out[-3000:])
         R.finish()
@@ -221,6 +223,20 @@ def main():
             s["source"]["kind"], s["source"]["version"], s["mutation"]["path"], s["mutation"]["alt"], s.get("orig"), s.get("new")),
             {"source": s["source"], "mutation": s["mutation"],
              "how": "./check C12 --replay <this file> rebuilds the file, re-applies the alteration and runs VerifyHashes/VerifySignatures"})
+    for n in (mu.get("notes") or []):
+        R.notes.append("harness: " + n)
+    if mu.get("skipped_over_budget"):
+        R.notes.append("harness: %d mutants skipped because the time budget was used up" % mu["skipped_over_budget"])
+    lc = mu.get("large_count_probe") or []
+    if lc:
+        R.coverage["large_count_probe"] = lc
+        slow = [r for r in lc if r["outcome"] in ("timeout", "crashed") or r["seconds"] > 5]
+        dec = [r for r in lc if r["outcome"] == "decoded"]
+        if dec:
+            R.notes.append("reading note (outside C12): a definition of %s with num_validators=%d (validators untouched) is DECODED, allocating %.0f MiB in %.1f s (~%.0f bytes per unit of the unchecked count: cluster/definition.go unmarshalDefinitionV1x0or1/V1x2or3/V1x4 call repeatVAddrs(num_validators) before any check); from v1.5 the decoder rejects the mismatch" % (
+                ", ".join(r["version"] for r in dec), dec[0]["num_validators"], dec[0]["alloc_mib"], max(r["seconds"] for r in dec), dec[0].get("alloc_bytes_per_unit_of_count", 0)))
+        for r in slow:
+            R.notes.append("large-count probe %s: %s after %.1f s %s" % (r["version"], r["outcome"], r["seconds"], r.get("detail", "")))
     if mu.get("panics"):
         R.notes.append("verification PANICKED on %d mutated files (counted as rejected): %s" % (
             len(mu["panics"]), json.dumps(mu["panics"][:3])))
